@@ -3,7 +3,9 @@
   correspondence compares the whole state after every export → wipe → import step of the real module.
   What is proved here: what export lists, that bank/staking/clock are outside the round trip, and the two ways the
   round trip is NOT the identity on the unchanged code (known findings D12): the rebalance flag is never restored
-  and each pending redelegation is queued twice.
+  and each pending redelegation is queued twice. What the round trip DOES restore exactly (proofs in
+  AllianceProofs/Rebuild, GenesisRoundTrip, UndelRoundTrip): the asset store, the delegation store, and the unbonding
+  queue together with its per-validator index — the latter in every state of every history (`reach_ixn`).
 -/
 import AllianceProofs
 namespace Alliance
@@ -63,6 +65,22 @@ theorem assets_survive_restart_in_scope (d : Denom) (w w' : World) (hc : Core d 
     (delegator, validator, denom) — which the share ledger `L0` (an invariant of every history, C03) provides -/
 theorem delegations_survive_restart (w w' : World) (hl : L0 w) (h : reimport w = (.ok (), w')) : w'.dels = w.dels :=
   reimport_restores_delegations w w' h hl.dsorted hl.keyed
+
+/-- the unbonding queue AND its per-validator index survive the round trip exactly, wherever index and queue agree
+    (INV-I) and no bucket is empty -/
+theorem unbondings_survive_restart (w w' : World) (hix : IX w) (hne : NE w) (h : reimport w = (.ok (), w')) :
+    w'.undelQueue = w.undelQueue ∧ w'.undelIndex = w.undelIndex := reimport_restores_unbondings w w' h hix hne
+
+/-- … which is every state of every history from the empty stores (`reach_ixn`): pending payouts, their completion
+    times and what a later slash will find through the index are the same after a restart -/
+theorem unbondings_survive_restart_in_every_history (w0 w w' : World) (h0 : IXN w0) (hr : ReachU w0 w)
+    (h : reimport w = (.ok (), w')) : w'.undelQueue = w.undelQueue ∧ w'.undelIndex = w.undelIndex :=
+  reimport_restores_unbondings_reachable w0 w w' h0 hr h
+
+/-- non-vacuity: the empty stores satisfy the premise -/
+example : IXN (default : World) :=
+  ⟨⟨List.Pairwise.nil, List.Pairwise.nil, fun p hp => absurd hp List.not_mem_nil, fun p hp => absurd hp List.not_mem_nil,
+    fun k hk => absurd hk List.not_mem_nil⟩, fun p hp => absurd hp List.not_mem_nil⟩
 
 end C18
 end Alliance
